@@ -7,8 +7,7 @@ from . import common as cm
 FM = ["md5", "xxh64", "sha1"]
 
 
-def scenario(tier):
-    G = 2 if tier == "quick" else 3
+def scenario(tier, G=2, lean=False):
 
     def fn(b, sym):
         files = {"R/a.txt": 1, "R/d/b.txt": 2, "R/d/e/c.txt": 3}
@@ -23,9 +22,12 @@ def scenario(tier):
         ever = set()
         gens = sym.choose("generations", list(range(1, G + 1)))
         for g in range(gens):
-            fmts = [f for f in FM if sym.flag("g%d_%s" % (g, f))]
-            if not fmts:
-                sym.assume(False)
+            if lean:
+                fmts = sym.choose("formats%d" % g, [["md5"], ["md5", "sha1"]] if g == 0 else [["md5"], ["xxh64"]])
+            else:
+                fmts = [f for f in FM if sym.flag("g%d_%s" % (g, f))]
+                if not fmts:
+                    sym.assume(False)
             mode = "folder" if g == 0 else sym.choose("mode%d" % g, ["folder", "sf-file", "sf-folder"])
             if g == 1 and sym.flag("file_added_before_gen1"):
                 b.mkfile("R/z/new report.txt", 9)
@@ -39,7 +41,7 @@ def scenario(tier):
                     cur["R/d/b.txt"] = orig["R/d/b.txt"]
                     b.alter("R/d/b.txt", orig["R/d/b.txt"])
             # the machine's time zone may differ from generation to generation (material travels)
-            if g < 2:
+            if g < 2 and not lean:
                 b.use_fixed_offset(3600 * sym.choose("zone_hours_gen%d" % g, [0, 2, -7] if g == 1 else [0, 2]))
             names_before = b.manifest_names("R")
             if mode == "folder":
@@ -100,10 +102,15 @@ def scenario(tier):
 
 
 def harnesses(tier):
-    return [Harness("c18-flatten", scenario(tier), frontier=6, budget_s=2400,
-                    what="flat history of 1-%d generations (first in folder mode, later ones folder / -sf file / -sf folder), every non-empty "
-                         "format subset per generation, one file kept / altered / restored between generations; flatten; packing list read "
-                         "independently; verify -pl on unchanged and altered tree" % (2 if tier == "quick" else 3),
-                    bounds={"generations": "1-%d" % (2 if tier == "quick" else 3), "formats": "md5, xxh64, sha1",
-                            "tree": "R/{a.txt,d/{b.txt,e/{c.txt}},z/}"},
-                    outside=["histories with nested child histories or renames (excluded by the statement)", "flatten -n / ignore options"])]
+    out = ["histories with nested child histories or renames (excluded by the statement)", "flatten -n / ignore options"]
+    hs = [Harness("c18-flatten", scenario(tier, 2), frontier=6, budget_s=2400,
+                  what="flat history of 1-2 generations (first in folder mode, then folder / -sf file / -sf folder), every non-empty subset of 3 "
+                       "formats per generation, one file kept / altered / restored, a file added in between, the machine's time zone changing "
+                       "between generations; flatten; packing list read independently; verify -pl on unchanged and altered tree",
+                  bounds={"generations": "1-2", "formats": "md5, xxh64, sha1", "tree": "R/{a.txt,d/{b.txt,e/{c.txt}},z/{new report.txt?}}",
+                          "zones": "UTC / +2 h / -7 h per generation"}, outside=out)]
+    if tier != "quick":
+        hs.append(Harness("c18-three-generations", scenario(tier, 3, lean=True), frontier=6, budget_s=2400,
+                          what="the same with 1-3 generations, restricted format sequences (md5 | md5+sha1, then md5 | xxh64), fixed zone",
+                          bounds={"generations": "1-3"}, outside=out))
+    return hs
